@@ -31,8 +31,8 @@ SCOPE = ("calendar matrix: 15 anchors (29th-31st, leap days, year ends, epoch) x
          "{SVG, TikZ}; option matrix: 13 base shapes (single datum, equal times, unsorted, ms / month-end / century spans, "
          "numeric times with LinearScale incl. degenerate) x {omitted, {}, direction(4) x algorithm(3) x bounds(4) x "
          "showTicks(2)} x {SVG, TikZ}; large: 300 labels / 120-label cluster (thorough: + 1000 / 200) and dense "
-         "multi-layer sets; then seeded random data sets (<= 200 labels, spans 1 ms..500 y, years 1600-2300) and "
-         "options until the time budget")
+         "multi-layer sets; then seeded random data sets (<= 200 labels, spans 1 ms..500 y, years 1600-2300; bounded "
+         "'overlap' layouts needing several layers cut to 50/90 labels for time) and options until the time budget")
 
 DIRS = ["right", "up", "left", "down"]
 ALGS = ["overlap", "simple", "none"]
@@ -299,7 +299,7 @@ def large_sets(run):
         both(run, cluster_case(p, d, alg, bounded))
     # dense sets that need several layers (<= 200 labels: no cluster can exceed 200)
     t0 = DT(2016, 2, 27, 6)
-    for n, mx in ((60, 200),) if quick else ((60, 200), (110, 300), (200, 3000)):
+    for n, mx in ((60, 200),) if quick else ((60, 200), (90, 300), (200, 6000)):
         data = [{"time": t0 + TD(hours=(k * k * 7) % 190, minutes=7 * k), "width": 20 + (k % 3) * 8, "text": "x%d" % k}
                 for k in range(n)]
         for d, alg in (("up", "overlap"), ("right", "simple")):
@@ -404,12 +404,26 @@ def rand_case(rng):
     return {"data": data, "options": options, "scale": scale}
 
 
+def trim_for_time(case, cap):
+    """Budget control only (not part of the oracle): the 'overlap' layering of a bounded axis that needs many layers
+    costs ~n**4, so such data sets are cut to `cap` labels."""
+    lab = (case["options"] or {}).get("labella", {})
+    if len(case["data"]) <= cap or lab.get("algorithm", "overlap") != "overlap":
+        return case
+    if lab.get("maxPos") is None or lab.get("minPos", 0) is None:
+        return case
+    ns = lab.get("nodeSpacing", 3)
+    need = sum(d["width"] + 4 + ns for d in case["data"])
+    if need > 0.4 * (lab["maxPos"] - lab.get("minPos", 0)):
+        case = dict(case, data=case["data"][:cap])
+    return case
+
+
 def explore_random(run):
     n = 0
+    cap = 50 if run.tier == "quick" else 90
     while run.left() > 0:
-        case = rand_case(run.rng)
-        if len(case["data"]) > 60 and run.left() < 4:
-            continue
+        case = trim_for_time(rand_case(run.rng), cap)
         both(run, case)
         n += 1
     run.note("random: %d data sets" % n)
